@@ -750,3 +750,21 @@ Proof.
       destruct (IH _ _ _ _ _ _ _ _ _ H) as [A B]. split; [exact A|]. intros h o Ho.
       destruct (B h o Ho) as [L|R]; [now left | now right].
 Qed.
+
+(* ----------------------------------------------------------------- State.final *)
+From M Require Import FeaturesFinal.
+
+Lemma error_final_independent cf w m e t d :
+  feat_nodup (c_order (cf_cfg cf)) = true ->
+  first_cand (c_trans (cf_cfg cf)) e (m_state (w_m w m)) = Some t -> ft_dst t = Some d ->
+  (obs_res (fstepF cf w m e) = RExn EMachine <->
+   has_error (c_order (cf_cfg cf)) && negb (has_trigger (cf_cfg cf) d) &&
+   negb (fs_accepted (sdef (cf_cfg cf) d) || nat_mem 0 (fs_tags (sdef (cf_cfg cf) d))) = true).
+Proof.
+  intros ND H D. destruct (error_iff (cf_cfg cf) w m e t d ND H D) as [A _].
+  unfold fstepF. rewrite A. unfold is_error_state. now rewrite andb_assoc.
+Qed.
+
+Lemma run_final_independent cf cf' w h :
+  cf_cfg cf = cf_cfg cf' -> frunF cf w h = frunF cf' w h.
+Proof. intros E. unfold frunF. now rewrite E. Qed.
